@@ -1,18 +1,38 @@
 /* h_fault - C19: exhaustive single-fault (and random multi-fault) allocation-failure injection.
 
-   usage: h_fault <scenario> <resultfile> <shard> <nshards> <maxchildren> <maxocc> <multi> <seed>
+   usage: h_fault <scenario>[+del] <resultfile> <shard> <nshards> <maxchildren> <maxocc> <multi> <seed> [dry]
+          h_fault list
 
-   The library's malloc/calloc/realloc/free are interposed at link time (-Wl,--wrap=malloc,... ; psMalloc
-   & co. are macros over the libc names in this configuration, core/include/psmalloc.h).  The harness's own
-   allocations bypass the wrapper (macros below), so only allocations made INSIDE the library are counted.
+   Self-contained two-peer in-memory TLS driver (no sess.h): client and server sessions live in this process, records
+   travel through two byte queues.  The library's malloc/calloc/realloc/free are interposed at link time
+   (-Wl,--wrap=malloc,... ; psMalloc & co. are macros over the libc names in this configuration, core/include/psmalloc.h).
+   The harness's own allocations bypass the wrapper (macros below), so only allocations made INSIDE the library count.
+   Entropy, PRNG, clock and calendar are pinned (--wrap=psGetEntropy,psGetPrngLocked,psGetTime,psGetBrokenDownGMTime).
 
-   One process = one scenario = one fault-free "parent" run.  At every library allocation k that this
-   shard owns the parent forks: in the child that allocation returns NULL (and, with multi != 0, later
-   allocations fail again at random), the scenario continues to its end, the child checks the verdict
-   conditions and writes one `V` line; the parent goes on with a successful allocation.  A child killed by
-   a signal / stopped by a sanitizer is reported by the parent (`R` line); its sanitizer report is in
-   <resultfile>.err.<k>.  Lines (all in <resultfile>, appended atomically):
+   One process = one scenario = one fault-free "parent" run.  At every library allocation k that this shard owns the
+   parent forks: in the child that allocation returns NULL (and, with multi != 0, later allocations fail again at
+   random), the scenario continues to its end INCLUDING the deletion of every object the application owns (sessions,
+   session id, both key sets, matrixSslClose), the child checks the verdict conditions and writes one `V` line; the parent
+   goes on with a successful allocation.  A child killed by a signal / stopped by a sanitizer is reported by the parent
+   (`R` line); its sanitizer report is in <resultfile>.err.<k>.  maxocc > 0 = deterministic subsampling (quick tier): only
+   the first maxocc executions of a (call stack, API call, phase) combination are fault points.
 
+   Scenarios (table SCEN below):
+     positive  keys; full handshake + data both ways (20000 bytes up in one call: fragmentation and buffer growth, 3000 down
+               through GetWritebuf/EncodeWritebuf) + closure, then a resumed connection (session id / ticket / TLS 1.3 PSK) on
+               the SAME application-owned session id and keys; tls12-ticket-renew adds a server restart with another ticket
+               key (ticket refused, full handshake, NEW ticket replaces the old one in the session id) and a resumption with
+               it.  The client always has an expectedName and a certificate callback.  "<scenario>+del": the application
+               deletes everything right after the connection in which the allocation failed (a later connection can
+               overwrite, and so hide, a stale pointer).
+               After every API call that reports success the configuration it was asked to install is checked
+               (expectedName, callback, keys, sid, identity, CA list, ticket keys, PSK): `cfglost=`.
+     negative  twins: one verification step each that MUST refuse the handshake without any fault (expectedName mismatch,
+               server chain not under the client's CA, client certificate not trusted by the server, rejecting certificate
+               callback, different PSKs): under NO fault may a side listed in `neg` (1 client, 2 server) report
+               completion, and no application data may be delivered.
+
+   Lines (all in <resultfile>, appended atomically):
      A k ra0 ra1 ra2 ra3 ra4     (shard 0 only) return addresses of allocation k (ra0 = the library function that
                                  called the allocator): k -> allocation site
      B scenario=.. allocs=N ...  baseline verdict of the fault-free run
@@ -46,16 +66,17 @@ void __real_free(void *p);
 #include "matrixssl/matrixsslImpl.h"
 
 /* ---------------------------------------------------------------- API call bracket
-   Every public API call made by the scenarios (including those inside sess.h) goes through these
+   Every public API call made by the scenarios goes through these
    macros: the name of the call in progress, the side, and the return code are known to the verdict. */
 enum { A_NONE, A_OPEN, A_CLOSE, A_NEWKEYS, A_DELKEYS, A_LOADRSAMEM, A_LOADECMEM, A_LOADKEYSMEM, A_LOADKEYS, A_LOADTICKET,
        A_NEWSID, A_DELSID, A_NEWCLIENT, A_NEWSERVER, A_DELSESSION, A_GETOUT, A_SENT, A_GETREADBUF, A_RECEIVED,
-       A_PROCESSED, A_ENCODE, A_CLOSURE, A_OPTS, A_MAX };
+       A_PROCESSED, A_ENCODE, A_CLOSURE, A_OPTS, A_LOADPSK, A_GETWRITEBUF, A_ENCODEWRITEBUF, A_MAX };
 static const char *A_NAME[A_MAX] = { "-", "matrixSslOpen", "matrixSslClose", "matrixSslNewKeys", "matrixSslDeleteKeys",
     "matrixSslLoadRsaKeysMem", "matrixSslLoadEcKeysMem", "matrixSslLoadKeysMem", "matrixSslLoadKeys", "matrixSslLoadSessionTicketKeys",
     "matrixSslNewSessionId", "matrixSslDeleteSessionId", "matrixSslNewClientSession", "matrixSslNewServerSession",
     "matrixSslDeleteSession", "matrixSslGetOutdata", "matrixSslSentData", "matrixSslGetReadbuf", "matrixSslReceivedData",
-    "matrixSslProcessedData", "matrixSslEncodeToOutdata", "matrixSslEncodeClosureAlert", "matrixSslSessOptsSet*" };
+    "matrixSslProcessedData", "matrixSslEncodeToOutdata", "matrixSslEncodeClosureAlert", "matrixSslSessOptsSet*",
+    "matrixSslLoadTls13Psk", "matrixSslGetWritebuf", "matrixSslEncodeWritebuf" };
 static void api_enter(int id, const void *ssl);
 static int32 api_leave(int id, int32 rc, const uint32 *ptlen);
 #define F_I(id, ssl, call) ({ api_enter(id, ssl); int32 rc__ = (int32) (call); api_leave(id, rc__, NULL); })
@@ -85,8 +106,51 @@ static int32 api_leave(int id, int32 rc, const uint32 *ptlen);
 #define matrixSslSessOptsSetServerTlsVersions(o, v, n) F_I(A_OPTS, NULL, matrixSslSessOptsSetServerTlsVersions(o, v, n))
 #define matrixSslSessOptsSetClientTlsVersions(o, v, n) F_I(A_OPTS, NULL, matrixSslSessOptsSetClientTlsVersions(o, v, n))
 
-#include "sess.h"
-#include "testkeys/RSA/2048_RSA_PSS.h"
+#define matrixSslLoadTls13Psk(k, key, kl, id, il, p) F_I(A_LOADPSK, NULL, matrixSslLoadTls13Psk(k, key, kl, id, il, p))
+#define matrixSslGetWritebuf(s, b, l) F_I(A_GETWRITEBUF, s, matrixSslGetWritebuf(s, b, l))
+#define matrixSslEncodeWritebuf(s, l) F_I(A_ENCODEWRITEBUF, s, matrixSslEncodeWritebuf(s, l))
+
+#include "testkeys/RSA/2048_RSA.h"
+#include "testkeys/RSA/2048_RSA_KEY.h"
+#include "testkeys/RSA/2048_RSA_CA.h"
+#include "testkeys/RSA/3072_RSA.h"
+#include "testkeys/RSA/3072_RSA_KEY.h"
+#include "testkeys/RSA/3072_RSA_CA.h"
+#include "testkeys/EC/256_EC.h"
+#include "testkeys/EC/256_EC_KEY.h"
+#include "testkeys/EC/256_EC_CA.h"
+
+/* ---------------------------------------------------------------- determinism (link with --wrap=psGetEntropy,psGetPrngLocked,
+   psGetTime,psGetBrokenDownGMTime): entropy is a seeded stream, the clock stands still, the calendar is pinned inside the
+   validity period of the test certificates (2017-03 .. 2027-03) */
+static uint64_t g_ent_state = 0x9E3779B97F4A7C15ULL;
+static void ent_seed(uint64_t s) { g_ent_state = s * 0x9E3779B97F4A7C15ULL + 0x1234567; }
+int32 __wrap_psGetEntropy(unsigned char *bytes, uint32 size, void *userPtr)
+{
+    (void) userPtr;
+    for (uint32 i = 0; i < size; i++) {
+        g_ent_state ^= g_ent_state << 13; g_ent_state ^= g_ent_state >> 7; g_ent_state ^= g_ent_state << 17;
+        bytes[i] = (unsigned char) (g_ent_state >> 24);
+    }
+    return (int32) size;
+}
+int32_t __wrap_psGetPrngLocked(unsigned char *bytes, psSize_t size, void *userPtr) { return __wrap_psGetEntropy(bytes, size, userPtr); }
+static long g_vtime = 1592222400;     /* 2020-06-15 12:00:00 UTC */
+int32 __wrap_psGetTime(psTime_t *t, void *userPtr)
+{ (void) userPtr; if (t) { t->psTimeAbstract[0] = (unsigned long long) g_vtime; t->psTimeAbstract[1] = 0; } return (int32) g_vtime; }
+int __wrap_psGetBrokenDownGMTime(struct tm *t, int offset)
+{ memset(t, 0, sizeof(*t)); t->tm_year = 2020 - 1900; t->tm_mon = 5; t->tm_mday = 15; t->tm_hour = 12; (void) offset; return 0; }
+
+/* ---------------------------------------------------------------- the two peers and the wire between them */
+typedef struct { ssl_t *ssl; int is_server; int done_events; int cb_calls; int32 cb_last_alert; } peer_t;
+static peer_t g_c, g_s;
+#define QCAP (1 << 20)
+typedef struct { unsigned char *b; size_t len; } queue_t;
+static queue_t g_c2s, g_s2c;
+static void q_init(queue_t *q) { if (!q->b) q->b = malloc(QCAP); q->len = 0; }
+static void q_push(queue_t *q, const unsigned char *d, size_t l) { if (q->len + l <= QCAP) { memcpy(q->b + q->len, d, l); q->len += l; } }
+static void q_pop(queue_t *q, size_t l) { memmove(q->b, q->b + l, q->len - l); q->len -= l; }
+static size_t q_reclen(queue_t *q) { if (q->len < 5) return 0; size_t l = 5 + ((size_t) q->b[3] << 8) + q->b[4]; return l <= q->len ? l : 0; }
 
 /* ---------------------------------------------------------------- injector state */
 enum { M_OFF, M_PARENT, M_CHILD };
@@ -107,8 +171,13 @@ static char g_fault_phase[32] = "-";
 static int g_first_err_api = A_NONE; static int32 g_first_err_rc = 0;
 static char g_undoc[256] = "";
 static unsigned long g_app_bytes[2];
-static int g_hs_done[2][4];           /* [side][handshake #] matrixSslHandshakeIsComplete after pumping */
+#define MAXCONN 8
+static int g_hs_done[2][MAXCONN];     /* [side][connection #]: HANDSHAKE_COMPLETE event seen or matrixSslHandshakeIsComplete after pumping */
 static int g_nhs = 0;
+static int g_resumed[MAXCONN];        /* server side: abbreviated handshake / PSK accepted */
+static int g_neg_mask = 0;            /* negative twin: sides (1 client, 2 server) that must never complete */
+static char g_cfglost[256] = "";      /* security-relevant configuration missing after an API call that reported success */
+static uint64_t g_rx_hash[2] = { 1469598103934665603ULL, 1469598103934665603ULL };
 static int g_in_wrapper = 0;
 
 static void wr(const char *s) { size_t l = strlen(s); ssize_t r = write(g_resfd, s, l); (void) r; }
@@ -198,13 +267,16 @@ static int inject(long k, void **bt, int nbt)
         for (int i = 0; i < nbt && i < 5; i++) n += snprintf(b + n, sizeof b - n, " %lx", (unsigned long) bt[i]);
         b[n++] = '\n'; b[n] = 0; wr(b);
     }
-    if (k % g_nshards != g_shard) return 0;
     if (g_maxocc > 0) {
+        /* deterministic subsampling (quick tier): only the first g_maxocc executions of a (call stack, API call, phase)
+           combination are fault points; counted over ALL allocations, so the selection does not depend on the sharding */
         uint64_t h = 1469598103934665603ULL;
         for (int i = 0; i < nbt && i < 6; i++) h = (h ^ (uint64_t) (uintptr_t) bt[i]) * 1099511628211ULL;
         h ^= (uint64_t) g_cur_api * 0x9E3779B97F4A7C15ULL;
+        for (const char *p = g_phase; *p; p++) h = (h ^ (unsigned char) *p) * 1099511628211ULL;
         if (occ_bump(h) > g_maxocc) return 0;
     }
+    if (k % g_nshards != g_shard) return 0;
     while (g_nkids >= g_maxchildren) reap(1);
     reap(0);
     fflush(NULL);
@@ -285,19 +357,19 @@ static int32 api_leave(int id, int32 rc, const uint32 *ptlen)
     /* documented results (matrixsslApi.h / matrixsslApiRet.h): negative = failure; the non-negative ones per call */
     if (rc >= 0) switch (id) {
     case A_OPEN: case A_NEWKEYS: case A_LOADRSAMEM: case A_LOADECMEM: case A_LOADKEYSMEM: case A_LOADKEYS: case A_LOADTICKET:
-    case A_NEWSID: case A_OPTS: case A_NEWSERVER:
+    case A_NEWSID: case A_OPTS: case A_NEWSERVER: case A_LOADPSK:
         ok = (rc == PS_SUCCESS); break;
     case A_NEWCLIENT: ok = (rc == MATRIXSSL_REQUEST_SEND); break;
-    case A_GETOUT: case A_GETREADBUF: case A_ENCODE: ok = 1; break;          /* byte counts */
+    case A_GETOUT: case A_GETREADBUF: case A_ENCODE: case A_GETWRITEBUF: case A_ENCODEWRITEBUF: ok = 1; break;   /* byte counts */
     case A_SENT: ok = (rc == MATRIXSSL_SUCCESS || rc == MATRIXSSL_REQUEST_SEND || rc == MATRIXSSL_REQUEST_CLOSE || rc == MATRIXSSL_HANDSHAKE_COMPLETE); break;
     case A_RECEIVED: case A_PROCESSED:
         ok = (rc == MATRIXSSL_SUCCESS || rc == MATRIXSSL_REQUEST_SEND || rc == MATRIXSSL_REQUEST_RECV || rc == MATRIXSSL_REQUEST_CLOSE ||
               rc == MATRIXSSL_APP_DATA || rc == MATRIXSSL_HANDSHAKE_COMPLETE || rc == MATRIXSSL_RECEIVED_ALERT || rc == MATRIXSSL_APP_DATA_COMPRESSED);
-        if ((rc == MATRIXSSL_APP_DATA) && ptlen && g_cur_side != '-') g_app_bytes[g_cur_side == 's'] += *ptlen;
         break;
     case A_CLOSURE: ok = (rc == MATRIXSSL_SUCCESS); break;
     default: break;
     }
+    (void) ptlen;
     if (!ok && strlen(g_undoc) < sizeof g_undoc - 48) { char b[48]; snprintf(b, sizeof b, "%s%s:%d", g_undoc[0] ? "," : "", A_NAME[id], rc); strcat(g_undoc, b); }
     if (g_mode == M_CHILD) {
         if (g_fault_pending && !g_fault_rc_known) { g_fault_rc = rc; g_fault_rc_known = 1; g_fault_pending = 0; if (g_fault_api == A_NONE) g_fault_api = id; }
@@ -305,6 +377,81 @@ static int32 api_leave(int id, int32 rc, const uint32 *ptlen)
     }
     g_cur_api = A_NONE; g_cur_side = '-';
     return rc;
+}
+
+/* an API call reported success: the security-relevant configuration it was asked to install must be there */
+static void cfg_lost(const char *what)
+{
+    if (strlen(g_cfglost) + strlen(what) + 2 < sizeof g_cfglost) { if (g_cfglost[0]) strcat(g_cfglost, ","); strcat(g_cfglost, what); }
+}
+
+/* ---------------------------------------------------------------- certificate callbacks */
+static int g_cb_reject_client = 0;       /* negative twin: the application's callback refuses the (valid) chain */
+static int32_t cb_client(ssl_t *ssl, psX509Cert_t *cert, int32_t alert)
+{ (void) ssl; (void) cert; g_c.cb_calls++; g_c.cb_last_alert = alert; if (g_cb_reject_client) return SSL_ALERT_BAD_CERTIFICATE; return alert; }
+static int32_t cb_server(ssl_t *ssl, psX509Cert_t *cert, int32_t alert)
+{ (void) ssl; (void) cert; g_s.cb_calls++; g_s.cb_last_alert = alert; return alert; }
+
+/* ---------------------------------------------------------------- moving bytes */
+static size_t flush_out(peer_t *p)
+{
+    size_t total = 0; unsigned char *buf; int32 n; int guard = 0;
+    if (!p->ssl) return 0;
+    while (guard++ < 10000 && (n = matrixSslGetOutdata(p->ssl, &buf)) > 0) {
+        q_push(p->is_server ? &g_s2c : &g_c2s, buf, (size_t) n);
+        total += (size_t) n;
+        int32 rc = matrixSslSentData(p->ssl, (uint32) n);
+        if (rc == MATRIXSSL_HANDSHAKE_COMPLETE) p->done_events++;
+        else if (rc == MATRIXSSL_REQUEST_CLOSE || rc < 0) break;
+    }
+    return total;
+}
+static void feed(peer_t *p, const unsigned char *d, size_t l)
+{
+    size_t off = 0; int guard = 0; int side = p->is_server;
+    if (!p->ssl) return;
+    while (off < l && guard++ < 100000) {
+        unsigned char *rb; int32 room = matrixSslGetReadbuf(p->ssl, &rb);
+        if (room <= 0) return;
+        size_t n = l - off; if (n > (size_t) room) n = (size_t) room;
+        memcpy(rb, d + off, n); off += n;
+        unsigned char *pt; uint32 ptlen;
+        int32 rc = matrixSslReceivedData(p->ssl, (uint32) n, &pt, &ptlen);
+        int inner = 0;
+        for (;;) {
+            if (inner++ > 100000) return;
+            if (rc == MATRIXSSL_APP_DATA || rc == MATRIXSSL_APP_DATA_COMPRESSED) {
+                g_app_bytes[side] += ptlen;
+                for (uint32 i = 0; i < ptlen; i++) g_rx_hash[side] = (g_rx_hash[side] ^ pt[i]) * 1099511628211ULL;
+                rc = matrixSslProcessedData(p->ssl, &pt, &ptlen); continue;
+            }
+            if (rc == MATRIXSSL_RECEIVED_ALERT) { rc = matrixSslProcessedData(p->ssl, &pt, &ptlen); continue; }
+            if (rc == MATRIXSSL_HANDSHAKE_COMPLETE) { p->done_events++; break; }
+            if (rc == MATRIXSSL_REQUEST_SEND || rc == MATRIXSSL_REQUEST_RECV || rc == MATRIXSSL_SUCCESS || rc == MATRIXSSL_REQUEST_CLOSE) break;
+            return;                                   /* error: the session is dead */
+        }
+        flush_out(p);
+        if (rc == MATRIXSSL_REQUEST_CLOSE) return;
+    }
+}
+static int deliver_one(int dir)
+{
+    queue_t *q = dir ? &g_s2c : &g_c2s; peer_t *to = dir ? &g_c : &g_s;
+    size_t l = q_reclen(q);
+    if (!l) return 0;
+    unsigned char *tmp = malloc(l); memcpy(tmp, q->b, l); q_pop(q, l);
+    feed(to, tmp, l); free(tmp);
+    return 1;
+}
+static void pump(void)
+{
+    int moved = 1, guard = 0;
+    flush_out(&g_c); flush_out(&g_s);
+    while (moved && guard++ < 2000) {
+        moved = 0;
+        while (q_reclen(&g_c2s)) { deliver_one(0); moved = 1; }
+        while (q_reclen(&g_s2c)) { deliver_one(1); moved = 1; }
+    }
 }
 
 /* ---------------------------------------------------------------- scenarios */
@@ -318,6 +465,14 @@ static unsigned char *slurp(const char *rel, int32 *len)
 static int g_ok = 1;                 /* scenario still on its nominal path */
 #define PHASE(name) do { g_phase = (name); } while (0)
 
+static void check_keys(sslKeys_t *k, int32 rc, int want_id, int want_ca, const char *api)
+{
+    char b[64];
+    if (rc < 0 || !k) return;
+    if (want_id && k->identity == NULL) { snprintf(b, sizeof b, "%s:identity", api); cfg_lost(b); }
+    if (want_ca && k->CAcerts == NULL) { snprintf(b, sizeof b, "%s:CAcerts", api); cfg_lost(b); }
+}
+
 /* key loading through every mem API: DER (typed RSA / EC entry points), PEM and DER via the generic one, PEM files */
 static void sc_keys(void)
 {
@@ -325,12 +480,14 @@ static void sc_keys(void)
     PHASE("rsa-der");
     if (matrixSslNewKeys(&k, NULL) >= 0) {
         rc = matrixSslLoadRsaKeysMem(k, RSA2048, sizeof(RSA2048), RSA2048KEY, sizeof(RSA2048KEY), RSA2048CA, sizeof(RSA2048CA));
+        check_keys(k, rc, 1, 1, "matrixSslLoadRsaKeysMem");
         if (rc < 0) g_ok = 0;
         matrixSslDeleteKeys(k);
     } else g_ok = 0;
     PHASE("ec-der"); k = NULL;
     if (matrixSslNewKeys(&k, NULL) >= 0) {
         rc = matrixSslLoadEcKeysMem(k, EC256, sizeof(EC256), EC256KEY, sizeof(EC256KEY), EC256CA, sizeof(EC256CA));
+        check_keys(k, rc, 1, 1, "matrixSslLoadEcKeysMem");
         if (rc < 0) g_ok = 0;
         matrixSslDeleteKeys(k);
     } else g_ok = 0;
@@ -339,6 +496,7 @@ static void sc_keys(void)
     if (c && p && a && matrixSslNewKeys(&k, NULL) >= 0) {
         matrixSslLoadKeysOpts_t o; memset(&o, 0, sizeof o);
         rc = matrixSslLoadKeysMem(k, c, cl, p, pl, a, al, &o);
+        check_keys(k, rc, 1, 1, "matrixSslLoadKeysMem");
         if (rc < 0) g_ok = 0;
         matrixSslDeleteKeys(k);
     } else g_ok = 0;
@@ -348,6 +506,7 @@ static void sc_keys(void)
     if (c && p && a && matrixSslNewKeys(&k, NULL) >= 0) {
         matrixSslLoadKeysOpts_t o; memset(&o, 0, sizeof o);
         rc = matrixSslLoadKeysMem(k, c, cl, p, pl, a, al, &o);
+        check_keys(k, rc, 1, 1, "matrixSslLoadKeysMem");
         if (rc < 0) g_ok = 0;
         matrixSslDeleteKeys(k);
     } else g_ok = 0;
@@ -356,100 +515,269 @@ static void sc_keys(void)
     if (matrixSslNewKeys(&k, NULL) >= 0) {
         matrixSslLoadKeysOpts_t o; memset(&o, 0, sizeof o);
         rc = matrixSslLoadKeysMem(k, RSA3072, sizeof(RSA3072), RSA3072KEY, sizeof(RSA3072KEY), RSA3072CA, sizeof(RSA3072CA), &o);
+        check_keys(k, rc, 1, 1, "matrixSslLoadKeysMem");
         if (rc < 0) g_ok = 0;
         matrixSslDeleteKeys(k);
     } else g_ok = 0;
     PHASE("pem-files"); k = NULL;
     if (matrixSslNewKeys(&k, NULL) >= 0) {
-        char cf[512], pf[512], af[512]; matrixSslLoadKeysOpts_t o; memset(&o, 0, sizeof o);
+        char cf[512], pf[512], af[1100]; matrixSslLoadKeysOpts_t o; memset(&o, 0, sizeof o);
         snprintf(cf, sizeof cf, "%s/testkeys/RSA/2048_RSA.pem", VERIF_REPO_DIR); snprintf(pf, sizeof pf, "%s/testkeys/RSA/2048_RSA_KEY.pem", VERIF_REPO_DIR);
         snprintf(af, sizeof af, "%s/testkeys/RSA/2048_RSA_CA.pem;%s/testkeys/EC/256_EC_CA.pem", VERIF_REPO_DIR, VERIF_REPO_DIR);
         rc = matrixSslLoadKeys(k, cf, pf, NULL, af, &o);
+        check_keys(k, rc, 1, 1, "matrixSslLoadKeys");
         if (rc < 0) g_ok = 0;
         matrixSslDeleteKeys(k);
     } else g_ok = 0;
 }
 
-static const unsigned char APP1[] = "GET /verif HTTP/1.0\r\n\r\n";
-static unsigned char APP2[3000];
+/* ---- TLS scenarios: objects owned by the application across connections */
+typedef struct {
+    const char *name;
+    int kind;                  /* 0 keys, 1 positive TLS plan, 2 negative twin */
+    int minor;                 /* 2 TLS1.1, 3 TLS1.2, 4 TLS1.3 */
+    int key;                   /* 0 RSA-2048 identities, 1 EC-256 identities */
+    int cauth;                 /* server asks for a client certificate */
+    int ticket;                /* session tickets (server ticket key loaded, client ticketResumption) */
+    const char *suite;         /* hex id or NULL */
+    int plan;                  /* positive: 0 = full + resumed; 1 = ticket renewal after server key rotation */
+    /* negative twins */
+    const char *expected;      /* expectedName of the client (default "localhost" = matches the test certificates) */
+    int client_ca;             /* 1 the CA of the server's chain, 2 an unrelated CA */
+    int server_ca;             /* client auth: 1 the CA of the client's chain, 2 an unrelated CA */
+    int cb_reject;             /* client certificate callback refuses */
+    int psk;                   /* TLS 1.3 external PSK: 1 same key on both sides, 2 different keys under the same identity */
+    int must_not_complete;     /* sides that must never report completion: 1 client, 2 server */
+} scen_t;
 
-static void exchange(void)
+static sslKeys_t *g_ckeys, *g_skeys; static sslSessionId_t *g_sid;
+static const unsigned char PSK_ID[16] = "verif-psk-ident";
+static unsigned char PSK_A[32], PSK_B[32];
+static const unsigned char TICKET_NAME1[16] = "verif-ticketk-1", TICKET_NAME2[16] = "verif-ticketk-2";
+
+static int load_id(sslKeys_t *k, int key, int with_id, int ca /*0 none 1 family 2 unrelated*/)
+{
+    const unsigned char *cert = NULL, *priv = NULL, *cab = NULL; int32 cl = 0, pl = 0, cal = 0, rc;
+    if (key == 0) {
+        if (with_id) { cert = RSA2048; cl = sizeof(RSA2048); priv = RSA2048KEY; pl = sizeof(RSA2048KEY); }
+        if (ca == 1) { cab = RSA2048CA; cal = sizeof(RSA2048CA); } else if (ca == 2) { cab = RSA3072CA; cal = sizeof(RSA3072CA); }
+        rc = matrixSslLoadRsaKeysMem(k, cert, cl, priv, pl, cab, cal);
+        check_keys(k, rc, with_id, ca != 0, "matrixSslLoadRsaKeysMem");
+        return rc;
+    }
+    if (with_id) { cert = EC256; cl = sizeof(EC256); priv = EC256KEY; pl = sizeof(EC256KEY); }
+    if (ca == 1) { cab = EC256CA; cal = sizeof(EC256CA); } else if (ca == 2) { cab = RSA3072CA; cal = sizeof(RSA3072CA); }
+    rc = matrixSslLoadEcKeysMem(k, cert, cl, priv, pl, cab, cal);
+    check_keys(k, rc, with_id, ca != 0, "matrixSslLoadEcKeysMem");
+    return rc;
+}
+
+static int new_server_keys(const scen_t *sc, const unsigned char *tname, unsigned char fill)
 {
     int32 rc;
+    if (matrixSslNewKeys(&g_skeys, NULL) < 0) { g_skeys = NULL; return -1; }
+    if (load_id(g_skeys, sc->key, 1, sc->cauth ? (sc->server_ca ? sc->server_ca : 1) : 0) < 0) return -2;
+    if (sc->ticket) {
+        unsigned char sk[32], hk[32]; memset(sk, fill, 32); memset(hk, (unsigned char) ~fill, 32);
+        rc = matrixSslLoadSessionTicketKeys(g_skeys, tname, sk, 32, hk, 32);
+        if (rc < 0) return -3;
+        if (g_skeys->sessTickets == NULL) cfg_lost("matrixSslLoadSessionTicketKeys:sessTickets");
+    }
+    if (sc->psk) {
+        rc = matrixSslLoadTls13Psk(g_skeys, PSK_A, 32, PSK_ID, sizeof PSK_ID, NULL);
+        if (rc < 0) return -4;
+        if (g_skeys->tls13PskKeys == NULL) cfg_lost("matrixSslLoadTls13Psk:tls13PskKeys");
+    }
+    return 0;
+}
+
+/* application objects that live across the connections of a scenario */
+static int app_setup(const scen_t *sc)
+{
+    int32 rc;
+    for (int i = 0; i < 32; i++) { PSK_A[i] = (unsigned char) (i * 3 + 1); PSK_B[i] = (unsigned char) (i * 5 + 2); }
+    if (new_server_keys(sc, TICKET_NAME1, 0x5a) < 0) return -1;
+    if (matrixSslNewKeys(&g_ckeys, NULL) < 0) { g_ckeys = NULL; return -2; }
+    if (load_id(g_ckeys, sc->key, sc->cauth ? 1 : 0, sc->client_ca ? sc->client_ca : 1) < 0) return -3;
+    if (sc->psk) {
+        rc = matrixSslLoadTls13Psk(g_ckeys, sc->psk == 2 ? PSK_B : PSK_A, 32, PSK_ID, sizeof PSK_ID, NULL);
+        if (rc < 0) return -4;
+        if (g_ckeys->tls13PskKeys == NULL) cfg_lost("matrixSslLoadTls13Psk:tls13PskKeys");
+    }
+    if (matrixSslNewSessionId(&g_sid, NULL) < 0) { g_sid = NULL; return -5; }
+    return 0;
+}
+
+static void sessions_free(void)
+{
+    if (g_c.ssl) { matrixSslDeleteSession(g_c.ssl); g_c.ssl = NULL; }
+    if (g_s.ssl) { matrixSslDeleteSession(g_s.ssl); g_s.ssl = NULL; }
+}
+
+static psProtocolVersion_t minor2ver(int m) { return m == 2 ? v_tls_1_1 : m == 4 ? v_tls_1_3 : v_tls_1_2; }
+
+/* one connection: create both sessions, run the handshake; returns 0 when both sides completed */
+static int connect_once(const scen_t *sc, const char *ph_new, const char *ph_hs)
+{
+    int32 rc; sslSessOpts_t so; psProtocolVersion_t v[1]; psCipher16_t suites[1]; int nsuites = 0;
+    int idx = g_nhs < MAXCONN ? g_nhs : MAXCONN - 1; g_nhs++;
+    const char *expected = sc->expected ? sc->expected : "localhost";
+    PHASE(ph_new);
+    sessions_free();
+    memset(&g_c, 0, sizeof g_c); memset(&g_s, 0, sizeof g_s); g_s.is_server = 1;
+    q_init(&g_c2s); q_init(&g_s2c);
+    ent_seed(g_seed + (uint64_t) idx * 7919);
+    g_cb_reject_client = sc->cb_reject;
+    v[0] = minor2ver(sc->minor);
+    memset(&so, 0, sizeof so);
+    if (matrixSslSessOptsSetServerTlsVersions(&so, v, 1) < 0) return -1;
+    rc = matrixSslNewServerSession(&g_s.ssl, g_skeys, sc->cauth ? cb_server : NULL, &so);
+    if (rc < 0) { g_s.ssl = NULL; return -2; }
+    if (g_s.ssl->keys != g_skeys) cfg_lost("matrixSslNewServerSession:keys");
+    if (sc->cauth && (g_s.ssl->sec.validateCert != cb_server || !(g_s.ssl->flags & SSL_FLAGS_CLIENT_AUTH))) cfg_lost("matrixSslNewServerSession:client-auth");
+    memset(&so, 0, sizeof so);
+    if (matrixSslSessOptsSetClientTlsVersions(&so, v, 1) < 0) return -3;
+    if (sc->ticket) so.ticketResumption = 1;
+    if (sc->suite) { suites[0] = (psCipher16_t) strtol(sc->suite, NULL, 16); nsuites = 1; }
+    rc = matrixSslNewClientSession(&g_c.ssl, g_ckeys, g_sid, nsuites ? suites : NULL, (uint8_t) nsuites, cb_client, expected, NULL, NULL, &so);
+    if (rc != MATRIXSSL_REQUEST_SEND) { if (rc < 0) g_c.ssl = NULL; return -4; }
+    /* the call reported success: what it was asked to install must be installed */
+    if (g_c.ssl->expectedName == NULL || strcmp(g_c.ssl->expectedName, expected) != 0) cfg_lost("matrixSslNewClientSession:expectedName");
+    if (g_c.ssl->sec.validateCert != cb_client) cfg_lost("matrixSslNewClientSession:certCb");
+    if (g_c.ssl->keys != g_ckeys) cfg_lost("matrixSslNewClientSession:keys");
+    if (g_c.ssl->sid != g_sid) cfg_lost("matrixSslNewClientSession:sid");
+    PHASE(ph_hs);
+    pump();
+    g_hs_done[0][idx] = g_c.done_events > 0 || (g_c.ssl && matrixSslHandshakeIsComplete(g_c.ssl));
+    g_hs_done[1][idx] = g_s.done_events > 0 || (g_s.ssl && matrixSslHandshakeIsComplete(g_s.ssl));
+    if (g_s.ssl) g_resumed[idx] = ((g_s.ssl->flags & SSL_FLAGS_RESUMED) || g_s.ssl->sec.tls13UsingPsk) ? 1 : 0;
+    return (g_hs_done[0][idx] && g_hs_done[1][idx]) ? 0 : -5;
+}
+
+static unsigned char APP_UP[20000], APP_DOWN[3000];
+/* application data in both directions: client -> server 20000 bytes in one matrixSslEncodeToOutdata call (fragmented, the
+   output buffer and the receiver's input buffer grow and shrink again), server -> client 3000 bytes through
+   matrixSslGetWritebuf / matrixSslEncodeWritebuf */
+static int exchange(void)
+{
+    int32 rc; unsigned long c0 = g_app_bytes[0], s0 = g_app_bytes[1];
     PHASE("data");
-    if (!g_c.ssl || !g_s.ssl) { g_ok = 0; return; }
-    rc = matrixSslEncodeToOutdata(g_c.ssl, (unsigned char *) APP1, sizeof APP1); if (rc < 0) { g_ok = 0; return; }
-    pump(1);
-    for (size_t i = 0; i < sizeof APP2; i++) APP2[i] = (unsigned char) (i * 7 + 1);
-    rc = matrixSslEncodeToOutdata(g_s.ssl, APP2, sizeof APP2); if (rc < 0) { g_ok = 0; return; }
-    pump(1);
+    if (!g_c.ssl || !g_s.ssl) return -1;
+    for (size_t i = 0; i < sizeof APP_UP; i++) APP_UP[i] = (unsigned char) (i * 7 + 1);
+    for (size_t i = 0; i < sizeof APP_DOWN; i++) APP_DOWN[i] = (unsigned char) (i * 13 + 5);
+    rc = matrixSslEncodeToOutdata(g_c.ssl, APP_UP, sizeof APP_UP); if (rc < 0) return -2;
+    pump();
+    size_t off = 0;
+    while (off < sizeof APP_DOWN) {
+        unsigned char *wb; rc = matrixSslGetWritebuf(g_s.ssl, &wb, (uint32) (sizeof APP_DOWN - off)); if (rc <= 0) return -3;
+        size_t n = sizeof APP_DOWN - off; if (n > (size_t) rc) n = (size_t) rc;
+        memcpy(wb, APP_DOWN + off, n);
+        rc = matrixSslEncodeWritebuf(g_s.ssl, (uint32) n); if (rc < 0) return -4;
+        off += n;
+    }
+    pump();
+    if (g_app_bytes[1] - s0 != sizeof APP_UP || g_app_bytes[0] - c0 != sizeof APP_DOWN) return -5;
+    return 0;
 }
 static void closure(void)
 {
     PHASE("close");
-    if (g_c.ssl) { matrixSslEncodeClosureAlert(g_c.ssl); pump(1); }
-    if (g_s.ssl) { matrixSslEncodeClosureAlert(g_s.ssl); pump(1); }
+    if (g_c.ssl) { matrixSslEncodeClosureAlert(g_c.ssl); pump(); }
+    if (g_s.ssl) { matrixSslEncodeClosureAlert(g_s.ssl); pump(); }
 }
-static void handshake(scfg_t *c, const char *newphase, const char *hsphase)
-{
-    PHASE(newphase);
-    int rc = sess_new(c);
-    int idx = g_nhs < 4 ? g_nhs : 3; g_nhs++;
-    if (rc != 0) { g_ok = 0; return; }
-    PHASE(hsphase);
-    pump(1);
-    g_hs_done[0][idx] = g_c.ssl && matrixSslHandshakeIsComplete(g_c.ssl);
-    g_hs_done[1][idx] = g_s.ssl && matrixSslHandshakeIsComplete(g_s.ssl);
-    if (!g_hs_done[0][idx] || !g_hs_done[1][idx]) g_ok = 0;
-}
+/* the teardown is part of every scenario: sessions, the session id and both key sets are the application's to delete */
 static void teardown(void)
 {
     PHASE("teardown");
-    peer_free(&g_c); peer_free(&g_s);
-    if (g_skeys_persist) { matrixSslDeleteKeys(g_skeys_persist); g_skeys_persist = NULL; }
-    if (g_saved_sid) { matrixSslDeleteSessionId(g_saved_sid); g_saved_sid = NULL; }
+    sessions_free();
+    if (g_sid) { matrixSslDeleteSessionId(g_sid); g_sid = NULL; }
+    if (g_ckeys) { matrixSslDeleteKeys(g_ckeys); g_ckeys = NULL; }
+    if (g_skeys) { matrixSslDeleteKeys(g_skeys); g_skeys = NULL; }
     matrixSslClose();
 }
 
-/* full handshake + data + closure, then a resumed handshake + data + closure, then delete everything */
-static void sc_tls(int minor, int key, int cauth, int ticket, const char *suite)
+/* "<scenario>+del": the application deletes everything right after the connection during which the allocation failed
+   (a later connection can overwrite - and so hide - a stale pointer left in the session id or the keys) */
+static int g_stop_after_fault = 0;
+#define STOP_NOW (g_stop_after_fault && g_mode == M_CHILD)
+
+static void sc_tls(const scen_t *sc)
 {
-    scfg_t c; memset(&c, 0, sizeof c);
-    c.cver[0] = c.sver[0] = minor; c.ncver = c.nsver = 1; c.key = key; c.cauth = cauth; c.cca = 1; c.seed = g_seed;
-    c.scb = cauth ? 1 : 0; c.ccb = 1; c.ticket = ticket; c.name = "localhost";
-    if (suite) { c.suites[0] = (psCipher16_t) strtol(suite, NULL, 16); c.nsuites = 1; }
-    handshake(&c, "new", "handshake");
-    if (g_ok) exchange();
+    PHASE("setup");
+    if (app_setup(sc) < 0) { g_ok = 0; teardown(); return; }
+    if (sc->kind == 2) {
+        /* negative twin: without any fault this handshake must fail on the verification step under test */
+        g_neg_mask = sc->must_not_complete;
+        connect_once(sc, "new", "handshake");
+        g_ok = 0;
+        if (g_c.ssl && g_s.ssl) exchange();          /* nothing may come through either */
+        teardown();
+        return;
+    }
+    /* connection 1: full handshake */
+    if (connect_once(sc, "new", "handshake") < 0) g_ok = 0;
+    if (g_ok && exchange() < 0) g_ok = 0;
     if (g_ok) closure();
+    if (STOP_NOW) goto down;
+    /* connection 2: resumed (session id / ticket / TLS 1.3 PSK from the NewSessionTicket) */
     if (g_ok) {
-        c.resume = 1; c.keep_skeys = 1; c.seed = g_seed + 1;
-        handshake(&c, "new-resumed", "handshake-resumed");
-        if (g_ok) exchange();
+        if (connect_once(sc, "new-resumed", "handshake-resumed") < 0) g_ok = 0;
+        if (g_ok && exchange() < 0) g_ok = 0;
         if (g_ok) closure();
     }
+    if (STOP_NOW) goto down;
+    if (g_ok && sc->plan == 1) {
+        /* the server is restarted with another ticket key: the client's ticket is refused, a full handshake follows and
+           the server issues a NEW ticket that replaces the one held in the application's session id (renewal) */
+        PHASE("rotate");
+        sessions_free();
+        matrixSslDeleteKeys(g_skeys); g_skeys = NULL;
+        if (new_server_keys(sc, TICKET_NAME2, 0x3c) < 0) g_ok = 0;
+        if (g_ok && connect_once(sc, "new-renewal", "handshake-renewal") < 0) g_ok = 0;
+        if (g_ok && exchange() < 0) g_ok = 0;
+        if (g_ok) closure();
+        if (STOP_NOW) goto down;
+        /* connection 4: resumption with the renewed ticket */
+        if (g_ok && connect_once(sc, "new-resumed2", "handshake-resumed2") < 0) g_ok = 0;
+        if (g_ok) closure();
+    }
+down:
     teardown();
 }
 
-typedef struct { const char *name; int kind, minor, key, cauth, ticket; const char *suite; } scen_t;
 static const scen_t SCEN[] = {
-    { "keys", 0, 0, 0, 0, 0, NULL },
-    { "tls12", 1, 3, 0, 0, 0, NULL },
-    { "tls13", 1, 4, 0, 0, 1, NULL },
-    { "tls12-cauth", 1, 3, 0, 1, 0, NULL },
-    { "tls13-cauth", 1, 4, 0, 1, 1, NULL },
-    { "tls12-ec", 1, 3, 1, 0, 1, "c02b" },
-    { "tls13-ec-cauth", 1, 4, 1, 1, 1, NULL },
-    { "tls11", 1, 2, 0, 0, 0, NULL },
-    { "tls12-rsa-cbc", 1, 3, 0, 1, 1, "003c" },
-    { "tls12-ticket", 1, 3, 0, 0, 1, NULL },
-    { "tls13-chacha", 1, 4, 0, 0, 1, "1303" },
+    /* name               kind minor key cauth ticket suite   plan expected              cca sca cbrej psk mustnot */
+    { "keys",               0, 0, 0, 0, 0, NULL,   0, NULL,                0, 0, 0, 0, 0 },
+    { "tls12",              1, 3, 0, 0, 0, NULL,   0, NULL,                0, 0, 0, 0, 0 },   /* full + session-id resumption */
+    { "tls12-ticket-renew", 1, 3, 0, 0, 1, NULL,   1, NULL,                0, 0, 0, 0, 0 },   /* ticket issue, resumption, renewal, resumption */
+    { "tls13",              1, 4, 0, 0, 1, NULL,   0, NULL,                0, 0, 0, 0, 0 },   /* NewSessionTicket + PSK resumption */
+    { "tls12-cauth",        1, 3, 0, 1, 0, NULL,   0, NULL,                0, 0, 0, 0, 0 },
+    { "tls13-cauth",        1, 4, 0, 1, 1, NULL,   0, NULL,                0, 0, 0, 0, 0 },
+    { "tls12-ec-cauth",     1, 3, 1, 1, 1, "c02b", 0, NULL,                0, 0, 0, 0, 0 },
+    { "tls13-ec-cauth",     1, 4, 1, 1, 1, NULL,   0, NULL,                0, 0, 0, 0, 0 },
+    { "tls11",              1, 2, 0, 0, 0, NULL,   0, NULL,                0, 0, 0, 0, 0 },
+    { "tls12-rsa-cbc",      1, 3, 0, 1, 1, "003c", 0, NULL,                0, 0, 0, 0, 0 },
+    { "tls12-cbc-sha384",   1, 3, 0, 0, 0, "c028", 0, NULL,                0, 0, 0, 0, 0 },
+    { "tls13-chacha",       1, 4, 0, 0, 1, "1303", 0, NULL,                0, 0, 0, 0, 0 },
+    { "tls13-psk",          1, 4, 0, 0, 0, NULL,   0, NULL,                0, 0, 0, 1, 0 },   /* external PSK, same key on both sides */
+    /* negative twins: one verification step each that must fail without any fault - and under every fault */
+    { "neg12-name",         2, 3, 0, 0, 0, NULL,   0, "wrong.example.com", 0, 0, 0, 0, 3 },
+    { "neg13-name",         2, 4, 0, 0, 0, NULL,   0, "wrong.example.com", 0, 0, 0, 0, 3 },
+    { "neg12-ca",           2, 3, 0, 0, 0, NULL,   0, NULL,                2, 0, 0, 0, 3 },
+    { "neg13-ca",           2, 4, 0, 0, 0, NULL,   0, NULL,                2, 0, 0, 0, 3 },
+    { "neg12-clientcert",   2, 3, 0, 1, 0, NULL,   0, NULL,                0, 2, 0, 0, 2 },   /* TLS 1.2: client finishes after the server */
+    { "neg13-clientcert",   2, 4, 0, 1, 0, NULL,   0, NULL,                0, 2, 0, 0, 2 },   /* TLS 1.3: the client completes first by design */
+    { "neg12-cb",           2, 3, 0, 0, 0, NULL,   0, NULL,                0, 0, 1, 0, 3 },
+    { "neg13-cb",           2, 4, 0, 0, 0, NULL,   0, NULL,                0, 0, 1, 0, 3 },
+    { "neg13-psk",          2, 4, 0, 0, 0, NULL,   0, "wrong.example.com", 0, 0, 0, 2, 3 },   /* wrong PSK; the certificate fallback must not pass either */
+    { "neg12-ec-name",      2, 3, 1, 0, 0, "c02b", 0, "wrong.example.com", 0, 0, 0, 0, 3 },
 };
 
 extern int __lsan_do_recoverable_leak_check(void) __attribute__((weak));
 
 static void verdict(char tag)
 {
-    char b[3072]; int n;
+    char b[4096]; int n;
     unsigned long leaks = 0; char ls[1200] = ""; int ln = 0;
     if (g_nlive) for (unsigned i = 0; i < LIVE_CAP; i++) if (g_live[i].p && g_live[i].p != (void *) 1) {
         leaks++;
@@ -460,23 +788,31 @@ static void verdict(char tag)
     }
     int lsan = -1;
     if (getenv("H_FAULT_LSAN") && __lsan_do_recoverable_leak_check) lsan = __lsan_do_recoverable_leak_check();
+    char cd[MAXCONN + 1], sd[MAXCONN + 1], rs[MAXCONN + 1];
+    for (int i = 0; i < MAXCONN; i++) { cd[i] = g_hs_done[0][i] ? '1' : '0'; sd[i] = g_hs_done[1][i] ? '1' : '0'; rs[i] = g_resumed[i] ? '1' : '0'; }
+    cd[MAXCONN] = sd[MAXCONN] = rs[MAXCONN] = 0;
     n = snprintf(b, sizeof b, "%c k=%ld pid=%d scenario=%s allocs=%ld nfail=%ld ok=%d fault_api=%s fault_side=%c fault_phase=%s fault_rc=%s%d first_err=%s:%d "
-                 "cdone=%d%d%d%d sdone=%d%d%d%d nhs=%d app_c=%lu app_s=%lu leaks=%lu leak_sites=%s foreign_free=%lu lsan=%d undoc=%s\n",
+                 "cdone=%s sdone=%s resumed=%s nhs=%d neg=%d app_c=%lu app_s=%lu rxh=%016llx%016llx cfglost=%s leaks=%lu leak_sites=%s foreign_free=%lu lsan=%d undoc=%s\n",
                  tag, g_fail_k, (int) getpid(), g_scen, g_k, g_nfail, g_ok, A_NAME[g_fault_api], g_fault_side, g_fault_phase,
                  g_fault_rc_known ? "" : "?", g_fault_rc, A_NAME[g_first_err_api], g_first_err_rc,
-                 g_hs_done[0][0], g_hs_done[0][1], g_hs_done[0][2], g_hs_done[0][3], g_hs_done[1][0], g_hs_done[1][1], g_hs_done[1][2], g_hs_done[1][3],
-                 g_nhs, g_app_bytes[0], g_app_bytes[1], leaks, ls[0] ? ls : "-", g_foreign_free, lsan, g_undoc[0] ? g_undoc : "-");
+                 cd, sd, rs, g_nhs, g_neg_mask, g_app_bytes[0], g_app_bytes[1], (unsigned long long) g_rx_hash[0], (unsigned long long) g_rx_hash[1],
+                 g_cfglost[0] ? g_cfglost : "-", leaks, ls[0] ? ls : "-", g_foreign_free, lsan, g_undoc[0] ? g_undoc : "-");
     (void) n; wr(b);
 }
 
 int main(int argc, char **argv)
 {
-    if (argc < 9) { fprintf(stderr, "usage: h_fault scenario resultfile shard nshards maxchildren maxocc multi seed\n"); return 2; }
+    if (argc >= 2 && !strcmp(argv[1], "list")) {
+        for (size_t i = 0; i < sizeof SCEN / sizeof SCEN[0]; i++) printf("%s %s\n", SCEN[i].name, SCEN[i].kind == 2 ? "negative" : "positive");
+        return 0;
+    }
+    if (argc < 9) { fprintf(stderr, "usage: h_fault scenario resultfile shard nshards maxchildren maxocc multi seed [dry]\n       h_fault list\n"); return 2; }
     const scen_t *sc = NULL;
-    if (!strcmp(argv[1], "list")) { for (size_t i = 0; i < sizeof SCEN / sizeof SCEN[0]; i++) printf("%s\n", SCEN[i].name); return 0; }
-    for (size_t i = 0; i < sizeof SCEN / sizeof SCEN[0]; i++) if (!strcmp(SCEN[i].name, argv[1])) sc = &SCEN[i];
+    char base[64]; snprintf(base, sizeof base, "%s", argv[1]);
+    { char *plus = strchr(base, '+'); if (plus) { if (!strcmp(plus, "+del")) g_stop_after_fault = 1; *plus = 0; } }
+    for (size_t i = 0; i < sizeof SCEN / sizeof SCEN[0]; i++) if (!strcmp(SCEN[i].name, base)) sc = &SCEN[i];
     if (!sc) { fprintf(stderr, "unknown scenario\n"); return 2; }
-    g_scen = sc->name;
+    g_scen = argv[1];
     g_respath = argv[2];
     g_resfd = open(argv[2], O_WRONLY | O_CREAT | O_APPEND, 0644);
     if (g_resfd < 0) { perror("open"); return 2; }
@@ -487,17 +823,15 @@ int main(int argc, char **argv)
     g_live = calloc(LIVE_CAP, sizeof *g_live); g_occ = calloc(OCC_CAP, sizeof *g_occ);
     { void *ub[4]; backtrace(ub, 4); }                  /* load the unwinder before counting starts */
     setpriority(PRIO_PROCESS, 0, 10);
-    g_quiet = 1;
     q_init(&g_c2s); q_init(&g_s2c);
-    /* the library is opened before counting starts only for the key scenario's benefit?  No: matrixSslOpen is part
-       of the property ("at any point"), it runs under injection as well. */
+    /* matrixSslOpen is part of the property ("at any point"): it runs under injection as well */
     g_mode = dry ? M_OFF : M_PARENT; g_counting = 1;
     PHASE("open");
     int32 orc = matrixSslOpen();
     if (orc < 0) { g_ok = 0; }
     else {
         if (sc->kind == 0) { sc_keys(); PHASE("teardown"); matrixSslClose(); }
-        else sc_tls(sc->minor, sc->key, sc->cauth, sc->ticket, sc->suite);
+        else sc_tls(sc);
     }
     g_counting = 0;
     if (g_mode == M_CHILD) {
